@@ -396,6 +396,7 @@ type VerifSentPHTracked struct {
 	Outstand  bool
 	PathProbe bool
 	FrameIDs  []int64 // ids of frames with a handler
+	Level     int64
 }
 
 func verifSentPHFrameIDs(p *packet) []int64 {
@@ -425,7 +426,7 @@ func (v *VerifSentPH) Tracked() []VerifSentPHTracked {
 				continue
 			}
 			out = append(out, VerifSentPHTracked{Space: i, PN: int64(s.history.firstPacketNumber) + int64(j), Length: int64(p.Length),
-				Included: p.includedInBytesInFlight, AckElicit: p.IsAckEliciting(), Outstand: p.Outstanding(), PathProbe: p.isPathProbePacket,
+				Included: p.includedInBytesInFlight, AckElicit: p.IsAckEliciting(), Outstand: p.Outstanding(), PathProbe: p.isPathProbePacket, Level: int64(p.EncryptionLevel),
 				FrameIDs: verifSentPHFrameIDs(p)})
 		}
 		for _, pp := range s.history.pathProbePackets {
